@@ -240,3 +240,95 @@ Contract(MCN + ".__getattr__", kinds={"name": "str"},
          ensures=[("notification_job_appended_last", lambda c: _job_appended(c, c.old(c.a.self, "multicall"), True), ("C01", "C04"))],
          modifies=[Field(lambda c: c.old(c.a.self, "multicall"), "_job_list")] + [Fresh(f) for f in ("method", "params", "notify", "_config")],
          types={"return": MCM}, props=("C01",))
+
+
+# --- MultiCallMethod.request / MultiCall._request: one exchange for the whole batch -------------------------------------------------
+from .transport import _sp_inv, _P as _SPP                                   # noqa: E402
+FIELDS.declare(MC, "_server", type=SP)
+FIELDS.declare(MC, "_job_list", elem_type=MCM)
+
+
+def _mcm_domain(c):
+    p, cfg = c.old(c.a.self, "params"), c.old(c.a.self, "_config")
+    return z3.And(z3.Or(V.is_list(p), V.is_tuple(p), V.is_dict(p)), implies(z3.Not(V.is_dict(p)), V.seq_len(p) >= 0),
+                  implies(V.is_dict(p), Val.dlen(p) >= 0), V.is_str(c.old(c.a.self, "method")),
+                  z3.Or(V.is_bool(c.old(c.a.self, "notify")), V.is_none(c.old(c.a.self, "notify"))),
+                  V.is_obj(cfg), Val.ref(cfg) >= 0, Val.ref(cfg) < ALLOC0, Val.ref(cfg) != Val.ref(c.a.self),
+                  C.subclass(C.cls_of(Val.ref(cfg)), __import__("jsonrpclib.config", fromlist=["Config"]).Config),
+                  valid_config(c, cfg), jsonv(p),
+                  z3.Or(V.is_none(c.a.rpcid), V.is_str(c.a.rpcid), V.is_number(c.a.rpcid)), z3.Or(V.is_none(c.a.encoding), V.is_str(c.a.encoding)))
+
+
+Contract(
+    MCM + ".request",
+    kinds={"encoding": "val", "rpcid": "val"},
+    requires=[("job", _mcm_domain)],
+    ensures=[
+        ("text_of_a_2_0_message_for_the_recorded_method", lambda c: implies(c.returns, z3.And(
+            V.is_str(c.ret), c.ret == V.VStr(V.jdumps_of(c.gnew("last_dumped"))),
+            (lambda D: z3.And(V.is_dict(D), get(D, "method") == c.old(c.a.self, "method"), get(D, "jsonrpc") == V.S("2.0"),
+                              has(D, "id") == z3.Not(V.truthy(c.old(c.a.self, "notify")))))(c.gnew("last_dumped")))), ("C01", "C14")),
+        ("job_untouched", lambda c: z3.And(c.new(c.a.self, "params") == c.old(c.a.self, "params"),
+                                           c.new(c.a.self, "method") == c.old(c.a.self, "method")), ("C01",)),
+    ],
+    modifies=[Ghost("uuid_ctr"), Ghost("xlate_log"), Ghost("last_dumped"), Ghost("x_kind"), Ghost("x_val")],
+    props=("C01",),
+)
+
+
+def _mc_domain(c):
+    srv = c.old(c.a.self, "_server")
+    jobs = _jobs(c, c.a.self)
+
+    class _A(object):
+        pass
+    c2 = __import__("copy").copy(c)
+    a = _A()
+    a.self = srv
+    c2.a = a
+    return z3.And(V.is_obj(srv), Val.ref(srv) >= 0, Val.ref(srv) < ALLOC0, Val.ref(srv) != Val.ref(c.a.self),
+                  C.subclass(C.cls_of(Val.ref(srv)), J.ServerProxy), _sp_inv(c2),
+                  V.is_list(jobs), Val.llen(jobs) >= 0,
+                  # every recorded job is a well-formed MultiCallMethod (FJ is universally quantified)
+                  z3.Implies(z3.And(FJ >= 0, FJ < V.seq_len(jobs)), _job_ok(c, z3.Select(V.seq_at(jobs), FJ), srv)))
+
+
+def _job_ok(c, job, srv):
+    class _A(object):
+        pass
+    c3 = __import__("copy").copy(c)
+    a = _A()
+    a.self, a.rpcid, a.encoding = job, V.VNone, V.VNone
+    c3.a = a
+    return z3.And(V.is_obj(job), Val.ref(job) >= 0, Val.ref(job) < ALLOC0, Val.ref(job) != Val.ref(c.a.self), Val.ref(job) != Val.ref(srv),
+                  C.subclass(C.cls_of(Val.ref(job)), J.MultiCallMethod), _mcm_domain(c3))
+
+
+def _sent_body(c):
+    return z3.Select(Val.tat(z3.Select(Val.lat(c.gnew("sent")), Val.llen(c.gold("sent")))), 2)
+
+
+Contract(
+    MC + "._request",
+    requires=[("batch", _mc_domain)],
+    ensures=[
+        ("empty_batch_sends_nothing", lambda c: implies(Val.llen(_jobs(c, c.a.self)) == 0, z3.And(
+            c.returns, V.is_none(c.ret), c.gnew("sent") == c.gold("sent"))), ("C01",)),
+        ("one_exchange_for_the_whole_batch", lambda c: implies(Val.llen(_jobs(c, c.a.self)) > 0,
+                                                               Val.llen(c.gnew("sent")) <= Val.llen(c.gold("sent")) + 1), ("C01", "C03")),
+        ("body_is_a_bracketed_array_text", lambda c: implies(
+            z3.And(Val.llen(_jobs(c, c.a.self)) > 0, Val.llen(c.gnew("sent")) == Val.llen(c.gold("sent")) + 1),
+            z3.And(V.is_str(_sent_body(c)), z3.PrefixOf(sv("["), Val.s(_sent_body(c))), z3.SuffixOf(sv("]"), Val.s(_sent_body(c))))),
+         ("C01", "C14")),
+        ("jobs_consumed_and_results_wrapped", lambda c: implies(z3.And(c.returns, Val.llen(_jobs(c, c.a.self)) > 0), z3.And(
+            Val.llen(_jobs(c, c.a.self, "new")) == 0, c.fresh_obj(c.ret))),
+         ("C01",)),
+    ],
+    modifies=[Field(lambda c: c.a.self, "_job_list"), Fresh("results"),
+              Ghost("sent"), Ghost("imports"), Ghost("constructs"), Ghost("xlate_log"), Ghost("x_kind"), Ghost("x_val"),
+              Ghost("checked_name"), Ghost("bean_attrs"), Ghost("transport_failed"), Ghost("uuid_ctr"), Ghost("last_dumped"),
+              Field(lambda c: c.old(c.old(c.a.self, "_server"), _SPP + "history"), "requests"),
+              Field(lambda c: c.old(c.old(c.a.self, "_server"), _SPP + "history"), "responses")],
+    types={"return": MCI},
+    props=("C01",),
+)
